@@ -20,7 +20,7 @@ Definition wf_step (s : sys) (o : op) : Prop :=
                   forall a, In a (s_univ s) -> e_hash a = h -> a = e
   | OJoin _ _ size => size < 0
   | ONew _ _ _ _ t0 => 0 <= t0
-  | OOpen _ _ _ _ _ _ => False   (* histories with re-opened logs: see POpen.v ([owf]) *)
+  | OOpen _ _ _ _ _ _ _ => False   (* histories with re-opened logs: see POpen.v ([owf]) *)
   | _ => True
   end.
 
@@ -81,7 +81,7 @@ Qed.
 
 Theorem sinv_step s o : sinv s -> wf_step s o -> sinv (fst (step s o)).
 Proof.
-  intros [UO IL] W. destruct o as [id key sf deny t0|r payload pc h|r src size|r key|r mh|r io|r payload pc h|r|osrc okeep oid okey osf odeny]; cbn [step].
+  intros [UO IL] W. destruct o as [id key sf deny t0|r payload pc h|r src size|r key|r mh|r io|r payload pc h|r|osrc okeep ohh oid okey osf odeny]; cbn [step].
   - (* ONew *)
     split; [exact UO|]. cbn [fst s_logs s_univ]. intros r l H.
     destruct (Nat.lt_ge_cases r (length (s_logs s))) as [Hl|Hl].
